@@ -16,6 +16,7 @@
 # limitations under the License.
 # -----------------------------------------------------------------------------
 import asyncio as aio
+import struct
 import logging
 
 from ..encoding.tlv_var import parse_tl_num
@@ -43,7 +44,11 @@ class UdpFace(IpFace):
 
             def datagram_received(
                     self, data: bytes, addr: tuple[str, int]) -> None:
-                typ, _ = parse_tl_num(data)
+                try:
+                    typ, _ = parse_tl_num(data)
+                except (IndexError, struct.error):
+                    # An empty datagram, or one too short to carry a Type: drop it
+                    return
                 aio.create_task(self.callback(typ, data))
                 return
 
